@@ -28,6 +28,7 @@ Step(e) ==
     [] e.a = "ReplaceSnapshot"   -> ReplaceSnapshot(e.s, SnapOf(e.snap))
     [] e.a = "MarkApplied"       -> MarkApplied(e.s, e.i)
     [] e.a = "MarkConfigApplied" -> MarkConfigApplied(e.s, e.i)
+    [] e.a = "SaveFails"         -> SaveFails(e.s)
     [] e.a = "Reopen"            -> Reopen
     [] e.a = "Entries"           -> GetEntries(e.s, e.lo, e.hi)
     [] e.a = "Term"              -> GetTerm(e.s, e.i)
